@@ -50,6 +50,12 @@ class ReaderRun:
                     self.atom_loops.append(ev.loops[-1])
                 else:
                     self.header_ids.append(uid)
+        # the line model numbers header lines by the order of their readline() calls: it is valid only when every line read
+        # inside a loop that could not be unrolled (the atom block) comes after all header lines
+        seqs_loop = [ev.seq for ev in self.it.events if ev.kind == "call" and ev.data["call"][1] == ".readline" and ev.loops]
+        seqs_hdr = [ev.seq for ev in self.it.events if ev.kind == "call" and ev.data["call"][1] == ".readline" and not ev.loops]
+        if seqs_loop and seqs_hdr and max(seqs_hdr) > min(seqs_loop):
+            raise AnalysisError(f"{self.fq}: header lines are read inside a loop that cannot be unrolled for ndim={ndim}; the line-by-line model does not apply")
         self.rets = [r for r in self.it.returns if r.data["value"][0] == "call"]
         self.none_rets = [r for r in self.it.returns if r.data["value"] == NONE]
 
